@@ -219,7 +219,14 @@ impl BackwardEngine {
         let all = facts.get_all_facts();
         let mut keys: Vec<&String> = all.keys().collect();
         keys.sort();
-        let mut key = format!("{:?}@kb{}", query_str, self.knowledge_base.version());
+        // max_solutions is part of the key: query_aggregate raises it for one pattern query without
+        // rebuilding the goal manager, and for negated goals the verdict depends on it
+        let mut key = format!(
+            "{:?}@kb{}@ms{}",
+            query_str,
+            self.knowledge_base.version(),
+            self.config.max_solutions
+        );
         for k in keys {
             key.push_str(&format!(";{:?}=", k));
             canonical(&all[k], &mut key);
